@@ -58,6 +58,9 @@ def cases(tier, rng):
                     yield {'k': 'cuts', 'h': name, 'cuts': list(cuts), 'tail': tail, 'pat': pat}
         for j in range(30 if tier == 'thorough' else 2):
             yield {'k': 'long', 'h': name, 'j': j}
+        if name in ('blake2b', 'blake2s', 'md5', 'sha1', 'sha256'):
+            for total in (65536, 131072) if name.startswith('blake2') else (65536,):          # exact multiples of 64 KiB, one-shot against pieces
+                yield {'k': 'long', 'h': name, 'j': 0, 'total': total}
     for j in range(len(HASHES) * (6 if tier == 'quick' else 40)):
         yield {'k': 'interleaved', 'h': HASHES[j % len(HASHES)], 'other': HASHES[(j * 7 + j // len(HASHES)) % len(HASHES)], 'j': j}
     for name in HASHES:
@@ -109,9 +112,11 @@ def run(case, ctx, rng):
             ctx.cls((name, str(cuts), tail))
         else:
             nb = rng.randrange(5, 40); tail = rng.randrange(0, B)
+            if case.get('total'):
+                nb, tail = case['total'] // B - 1, B
             cuts = sorted(rng.randrange(0, nb + 1) for _ in range(rng.randrange(1, 7)))
             M = rng.randbytes(nb * B + tail)
-            ctx.cls((name, 'long', len(cuts)))
+            ctx.cls((name, 'long', len(cuts), case.get('total', 0)))
         pts = [0] + [c * B for c in cuts]
         pieces = [M[pts[i]:pts[i + 1]] for i in range(len(pts) - 1)]
         final = M[pts[-1]:]
